@@ -6,7 +6,9 @@
                                 dimension with memcpy and recurses three dimensions at a time for ndim >= 4
    Memory is a flat list of elements; strides, offsets and extents are natural numbers counted in ELEMENTS
    (width = 1; byte strides of the C code divided by the item size).  `dest` and `src` are different buffers.
-   Definitions only; proofs in Proofs/KernelsPyCyP4.v.  Not evaluated by harness/c04.py: hand transcriptions. *)
+   Definitions only; proofs in Proofs/KernelsPyCyP4.v.  Hand transcriptions, evaluated by harness/c04.py against
+   both configurations: (a) by Model/KernelsPyCy2Check.v ('sliced_copy' cases), (c) by Model/KernelsPyCy3Check.v
+   ('itrans' cases). *)
 From TenpyV Require Import Base.Prelude.
 
 Section SlicedCopy.
